@@ -281,7 +281,7 @@ def replay_case(case):
         for sig, (n, dets) in json.loads(p.stdout.strip().splitlines()[-1]).items():
             acc.violations[sig] = [n, dets]
         return acc
-    check_case({k: v for k, v in case.items() if k in ('s', 'edits')}, acc)
+    check_case({k: v for k, v in case.items() if k in ('s', 'edits', 'vlong', 'pattern', 'seed') and v is not None}, acc)
     return acc
 
 
